@@ -326,14 +326,17 @@ def r4(ctx, rep):
                         if ids:
                             env[ids[0]] = optlin.lin("index")
                 try:
-                    I = optlin.Interp(inputs=inputs)
-                    # locals of the function body that the key is computed from
-                    for st in f["body"]["s"]:
-                        if st.get("k") == "local" and st.get("init") is not None and st["pat"].get("k") == "p_ident":
-                            try:
-                                env[st["pat"]["n"]] = I.ev(st["init"], env)
-                            except optlin.Unsupported:
-                                pass
+                    import alpha
+                    A_ = alpha.Inliner(f)
+                    consts = {c_["path"].split("::")[-1]: c_["init"] for c_ in ctx.syn.statics if c_.get("kind") == "const" and c_.get("init") is not None} if hasattr(ctx.syn, "statics") else {}
+
+                    def look(name, node, A_=A_, consts=consts):
+                        d = A_._init_of(node, name)
+                        if d is None:
+                            # `let mut` bindings that are never re-assigned are not offered by the inliner; constants of the crate
+                            d = consts.get(name.split("::")[-1])
+                        return d
+                    I = optlin.Interp(inputs=inputs, lookup=look)
                     v = I.ev(kexpr, env)
                     lb = optlin.lower_bound(v, {"index": 0, "max_id": 1})
                     fresh = True
